@@ -182,6 +182,23 @@ pub fn shim_btreemap_entry_or_default<'a, K: Ord, V: Default>(m: &'a mut BTreeMa
 {
     m.entry(k).or_default()
 }
+/// N2 shim for `MAP.entry(K).or_insert(V)` on a BTreeMap (result reference unused by the crate)
+#[verifier::external_body]
+pub fn shim_btreemap_entry_or_insert<K: Ord, V>(m: &mut BTreeMap<K, V>, k: K, v: V)
+    ensures vstd::laws_cmp::obeys_cmp::<K>() ==> final(m)@ == (if old(m)@.contains_key(k) { old(m)@ } else { old(m)@.insert(k, v) }),
+{
+    m.entry(k).or_insert(v);
+}
+/// N2 shim for `IT.nth(N)`: the n-th of what the iterator yields
+#[verifier::external_body]
+pub fn shim_iter_nth<I: Iterator>(it: I, n: usize) -> (r: Option<I::Item>)
+    requires vstd::std_specs::iter::IteratorSpec::obeys_prophetic_iter_laws(&it),
+    ensures
+        vstd::std_specs::iter::IteratorSpec::will_return_none(&it) ==> r == (if n < vstd::std_specs::iter::IteratorSpec::remaining(&it).len() { Some(vstd::std_specs::iter::IteratorSpec::remaining(&it)[n as int]) } else { None }),
+{
+    let mut it = it;
+    it.nth(n)
+}
 /// `SET.append(&mut OTHER)` for BTreeSets
 #[verifier::external_body]
 pub fn shim_btreeset_append<T: Ord>(s: &mut BTreeSet<T>, other: &mut BTreeSet<T>)
